@@ -128,7 +128,7 @@ def check(R, F, P, cfg):
     # ---- R15.2 trigger ----------------------------------------------------------------------------------------------
     R.doc("R15.2", "trigger_collection: collect under !is_collecting & should_collect(..).unwrap_or(false), once, then adjust; allocation entry points pass the trigger once before cc_alloc")
     tg = anchor(F, "trigger_collection")
-    S = Super(P, tg, opaque=DO - {tg.npath})
+    S = Super(P, tg, opaque=DO - {tg.npath, "adjust_trigger_point"})   # the helper, when there is one, is looked through
     cs = S.calls_to("collect")
     for n in cs:
         lits = S.literals_at(n, exclude=("ui", "u"))
@@ -143,8 +143,11 @@ def check(R, F, P, cfg):
                         v = tables.closure_value(S, inner[2][0])
                         if v is not None and strip(v)[0] == "ret" and strip(v)[1] == "config::Config::should_collect":
                             should = True
-        adj = [x for x in S.calls_to("adjust_trigger_point") if S.dominates(n, x, exclude=("ui", "u"))]
-        R.inst("R15.2", "trigger-guard", notcoll and should and bool(adj), "collect in trigger_collection under %s; !is_collecting=%s, should_collect.unwrap_or(false)=%s, followed by adjust_trigger_point=%s" % (lits_str(lits)[:200], notcoll, should, bool(adj)), where=n.where(), cfg=cfg)
+        adj = [x for x in S.calls_to("config::Config::adjust") if S.dominates(n, x, exclude=("ui", "u"))]
+        if adj:
+            okp, _w = S.must_pass(n, lambda x: x in adj, S.returns, exclude=("ui", "u"), avoid_labels=("skip",))
+            adj = adj if okp else []
+        R.inst("R15.2", "trigger-guard", notcoll and should and bool(adj), "collect in trigger_collection under %s; !is_collecting=%s, should_collect.unwrap_or(false)=%s, followed on every path by Config::adjust (through the config accessor)=%s" % (lits_str(lits)[:200], notcoll, should, bool(adj)), where=n.where(), cfg=cfg)
     bad = []
     for p in tables.normal_paths(S):
         if len(p.calls("collect")) > 1:
@@ -171,10 +174,8 @@ def check(R, F, P, cfg):
     R.floor("R15.2/alloc-entry", cfg, 1, k)
     own = owners_of_calls(P, lambda c: c["npath"] == "utils::cc_alloc")
     R.inst("R15.2", "who-allocates", set(own) == {CCBOX + "new"}, "cc_alloc called from %s" % sorted(own), cfg=cfg)
-    atp = anchor(F, "adjust_trigger_point")
-    S = Super(P, atp, opaque=DO - {atp.npath})
-    adj = S.calls_to("config::Config::adjust")
-    R.inst("R15.2", "adjust-called", len(adj) == 1, "adjust_trigger_point calls Config::adjust: %d site(s)" % len(adj), where=atp.span, cfg=cfg)
+    own = owners_of_calls(P, lambda c: c["npath"] == "config::Config::adjust")
+    R.inst("R15.2", "adjust-called", bool(own) and set(own) <= {"adjust_trigger_point", "trigger_collection", "collect_cycles"}, "Config::adjust is called from %s (allowed: the two collection entry points or their adjust_trigger_point helper)" % sorted(own), cfg=cfg)
 
     # ---- R15.3 threshold writes ------------------------------------------------------------------------------------------
     R.doc("R15.3", "closed set of stores to bytes_threshold (only in Config::adjust and Config::new) with RHS checked_shl(thr,1)/thr>>1/DEFAULT; every path of adjust follows the guarded-write automaton")
